@@ -312,10 +312,19 @@ def chain(index, rep, db):
         # evaluated: the attributes the method leaves on the interpreter (hand-written assignments or a loop over a table of foods)
         icls = index.cls(INT, "Interpreter")
 
+        # the extractor handed in is an Extractor whose attributes are named quantities: a method of it that the interpreter calls (a tuple
+        # of the foods, say) is followed, so that what is unpacked is matched with what was listed
+        xcls = index.cls(EXT, "Extractor")
+        xattrs = {t_.attr for m_ in xcls.body if isinstance(m_, ast.FunctionDef) for s_ in ast.walk(m_) if isinstance(s_, (ast.Assign, ast.AugAssign))
+                  for t_ in (s_.targets if isinstance(s_, ast.Assign) else [s_.target])
+                  for t_ in ([t_] if isinstance(t_, ast.Attribute) else (getattr(t_, "elts", []) if isinstance(t_, (ast.Tuple, ast.List)) else []))
+                  if isinstance(t_, ast.Attribute) and isinstance(t_.value, ast.Name) and t_.value.id == "self"}
+
         def run_i(it_, fn=fn, icls=icls):
-            it_.classes = {"Interpreter": icls}
+            it_.classes = {"Interpreter": icls, "Extractor": xcls}
             o_ = Obj(icls, {}, "self")
-            it_.call_function(fn, [Path(("extracted_results",))], {}, o_)
+            x_ = Obj(xcls, {a_: Path(("extracted_results", a_)) for a_ in xattrs}, "extracted_results")
+            it_.call_function(fn, [x_], {}, o_)
             return o_
 
         try:
